@@ -11,7 +11,7 @@ RULE = ("exhaustive: every byte 0..255 x every predefined alphabet encoding (bas
         "change_encoding; ragged lists with empty rows; random custom alphabets. Non-trivial = contains a foreign byte, "
         "a lower-case letter, or a re-targeting between different alphabets")
 EXHAUSTIVE = {"quick": False, "thorough": False}
-MODEL_OPS = {"enc_byte", "enc_str", "enc_ragged", "retarget", "change"}
+MODEL_OPS = {"enc_byte", "enc_str", "enc_ragged", "retarget", "change", "retarget_view", "change_view"}
 ASSUMPTIONS = ["NumPy fancy indexing _lookup[bytes] is element-wise (modelled as List.mapM)",
                "ragged encode = flat encode + unchanged row lengths (npstructures RaggedArray shape handling is external)"]
 
@@ -119,6 +119,18 @@ def cases(tier, rng):
                 r = rng.choice([r for r in rows if r])
                 r[rng.randrange(len(r))] = rng.choice(foreign)
             yield {"op": "enc_ragged", "enc": n, "rows": rows}
+    # 3b. ragged VIEWS (selections that are not materialised yet) presented to change_encoding / another encoding
+    small = [n for n, A in alph.items() if len(A) <= 5]
+    for _ in range(900 if big else 200):
+        a = rng.choice(small)
+        b = rng.choice(small + ["AminoAcidEncoding"])
+        A = alph[a]
+        rows = [[rng.choice(A) for _ in range(rng.choice([0, 1, 2, 3, 4]))] for _ in range(rng.choice([2, 3, 5]))]
+        view = rng.choice(["rev", "perm", "colrev", "step", "mask", "tail"])
+        perm = list(range(len(rows)))
+        rng.shuffle(perm)
+        yield {"op": rng.choice(["change_view", "retarget_view"]), "src": A, "tgt": alph[b], "rows": rows, "view": view, "perm": perm,
+               "mask": [rng.random() < 0.6 for _ in rows], "names": [a, b]}
     # 4. re-targeting and change_encoding between every ordered pair
     names = list(encs)
     for a in names:
@@ -146,7 +158,7 @@ def cases(tier, rng):
 def nontrivial(c):
     if c["op"] == "enc_byte":
         return True
-    if c["op"] in ("retarget", "change"):
+    if c["op"] in ("retarget", "change", "retarget_view", "change_view"):
         return c["src"] != c["tgt"]
     flat = c["s"] if "s" in c else [x for r in c["rows"] for x in r]
     return any(97 <= b <= 122 for b in flat) or len(flat) >= 2
@@ -191,6 +203,14 @@ def impl(c):
                 r = as_encoded_array(EncodedRaggedArray(flat, [len(x) for x in rows]), E)
             d = E.decode(r)
             return {"rows": [[int(x) for x in row.raw()] for row in d]}
+        if op in ("retarget_view", "change_view"):
+            S, T = _enc_obj(c, "src", 0), _enc_obj(c, "tgt", 1)
+            x = as_encoded_array([_text(r) for r in c["rows"]], S)
+            v = _select_view(x, c)
+            y = as_encoded_array(v, T) if op == "retarget_view" else change_encoding(v, T)
+            if not (y.encoding == T):
+                return {"rows": None, "wrong_encoding": str(y.encoding)}
+            return {"rows": [[int(b) for b in T.decode(row).raw().ravel()] for row in y]}
         if op in ("retarget", "change"):
             S, T = _enc_obj(c, "src", 0), _enc_obj(c, "tgt", 1)
             x = as_encoded_array(_text(c["s"]), S)
@@ -202,7 +222,40 @@ def impl(c):
         off = getattr(e, "offset", None)
         return {"err": "encoding", "offset": int(off) if (off is not None and op in ("enc_str",)) else None}
     except Exception as e:
+        if op in ("retarget", "change", "retarget_view", "change_view"):
+            # the property allows these to raise (any exception) instead of returning data; only silent change is a failure
+            return {"err": "encoding", "offset": None}
         return {"err": "other:" + type(e).__name__}
+
+
+def _select_view(x, c):
+    v = c["view"]
+    if v == "rev":
+        return x[::-1]
+    if v == "perm":
+        return x[list(c["perm"])]
+    if v == "colrev":
+        return x[:, ::-1]
+    if v == "step":
+        return x[::2]
+    if v == "mask":
+        return x[np.array(c["mask"], dtype=bool)]
+    return x[1:]
+
+
+def _select_rows(rows, c):
+    v = c["view"]
+    if v == "rev":
+        return rows[::-1]
+    if v == "perm":
+        return [rows[i] for i in c["perm"]]
+    if v == "colrev":
+        return [r[::-1] for r in rows]
+    if v == "step":
+        return rows[::2]
+    if v == "mask":
+        return [r for r, m in zip(rows, c["mask"]) if m]
+    return rows[1:]
 
 
 def _up(b):
@@ -215,6 +268,8 @@ def _accepts(A, b):
 
 def oracle(c):
     op = c["op"]
+    if op in ("retarget_view", "change_view"):
+        return {"rows_or_error": [[_up(b) for b in r] for r in _select_rows(c["rows"], c)]}
     if op in ("retarget", "change"):
         return {"text_or_error": [_up(b) for b in c["s"]]}
     A = [ord(ch) for ch in _encs()[c["enc"]].get_alphabet()]
@@ -247,6 +302,10 @@ def _static_alphabet(name):
 
 
 def agree(c, got, exp):
+    if "rows_or_error" in exp:
+        if isinstance(got, dict) and got.get("err") == "encoding":
+            return True
+        return isinstance(got, dict) and got.get("rows") == exp["rows_or_error"]
     if "text_or_error" in exp:
         if isinstance(got, dict) and got.get("err") == "encoding":
             return True
@@ -255,6 +314,9 @@ def agree(c, got, exp):
 
 
 def model_request(c):
+    if c["op"] in ("retarget_view", "change_view"):
+        # the model is applied to the selected rows: a selection only changes WHICH rows are presented
+        return dict(c, rows=_select_rows(c["rows"], c))
     return c
 
 
@@ -266,6 +328,6 @@ def finding_key(c, got, exp):
         if isinstance(got, dict) and "err" in got and "err" not in exp:
             return "encode:rejects-alphabet-member"
         return "encode:wrong-result"
-    if op == "retarget":
+    if op in ("retarget", "retarget_view"):
         return "retarget:silently-different-text"
     return "change_encoding:silently-different-text"
